@@ -37,7 +37,7 @@ func siblingsBefore(c *Ctx, f *FuncInfo, n ast.Stmt) []ast.Stmt {
 // ruleRenderSkip: the leaf walkers behind TogNMINotifications abandon a field only for the
 // accepted reasons. Emptiness is not unset-ness: a non-nil empty binary or leaf-list is data.
 func ruleRenderSkip(c *Ctx, r *Report) {
-	r.Rule("R-RENDER-SKIP", "ygot's leaf walkers (findUpdatedLeaves, findUpdatedOrderedListLeaves) abandon a struct field only after recording an error, after emitting its leaves, because the field is nil (IsNil), or because an enumeration is unset; any other silent skip (e.g. on Len()==0) drops data the decoder would have restored", 8)
+	r.Rule("R-RENDER-SKIP", "ygot's leaf walkers (findUpdatedLeaves, findUpdatedOrderedListLeaves) abandon a struct field only after recording an error, after emitting its leaves, because the field is nil (IsNil), because an enumeration is unset, or because it is a leaf-list without entries (Len()==0 with the Binary leaf type excluded); any other silent skip (e.g. on Len()==0 alone, which also matches a zero-length binary) drops data the decoder would have restored", 8)
 	for _, name := range []string{"findUpdatedLeaves", "findUpdatedOrderedListLeaves"} {
 		f := c.MustFunc(r, "ygot", name)
 		if f == nil {
@@ -87,6 +87,14 @@ func ruleRenderSkip(c *Ctx, r *Report) {
 				}
 				if id, ok := ast.Unparen(ft.Cond).(*ast.Ident); ok && !ft.Pos && boundFromCall(f, info.ObjectOf(id), P("ygot")+".enumFieldToString") {
 					r.OK(key, pos, "enumeration value is unset (0)")
+					return true
+				}
+			}
+			// an empty leaf-list (never a zero-length Binary): the decoder refuses it, R-EMPTY-LEAFLIST.
+			pm := c.parentMap(f.File)
+			if blk, ok := pm[bs].(*ast.BlockStmt); ok {
+				if is, ok := pm[blk].(*ast.IfStmt); ok && is.Body == blk && emptyLeafListCond(info, is.Cond) {
+					r.OK(key, pos, "leaf-list without entries (Binary excluded): "+types.ExprString(is.Cond))
 					return true
 				}
 			}
@@ -762,5 +770,175 @@ func ruleIntBase(c *Ctx, r *Report) {
 				fmt.Sprintf("%s calls %s with base %s: key and value strings are rendered in decimal, and a non-decimal base makes strings such as \"0x10\" or \"1_000\" parse as integers (a union{uint32,string} key \"0x10\" becomes the integer key 16 and can no longer be addressed)", f.Name, fn, types.ExprString(call.Args[1])))
 			return true
 		})
+	}
+}
+
+// ---- R-EMPTY-LEAFLIST (C02, C03) -----------------------------------------------------
+
+// emptyLeafListCond: cond is a conjunction that holds exactly for empty leaf-lists — one
+// conjunct `X.Len() == 0`, at least one conjunct excluding the Binary leaf type (a zero-length
+// binary is a value), and nothing else but slice-kind tests.
+func emptyLeafListCond(info *types.Info, cond ast.Expr) bool {
+	var cs []ast.Expr
+	flattenAnd(cond, &cs)
+	lenZero, notBinary := false, false
+	for _, e := range cs {
+		e = ast.Unparen(e)
+		switch x := e.(type) {
+		case *ast.BinaryExpr:
+			isConst := func(y ast.Expr, want string) bool {
+				v, ok := ConstOf(info, y)
+				return ok && strings.Trim(v, `"`) == want
+			}
+			lenCall := func(y ast.Expr) bool {
+				call, ok := ast.Unparen(y).(*ast.CallExpr)
+				return ok && FullName(Callee(info, call)) == "reflect.Value.Len"
+			}
+			switch {
+			case x.Op == token.EQL && (lenCall(x.X) && isConst(x.Y, "0") || lenCall(x.Y) && isConst(x.X, "0")):
+				lenZero = true
+				continue
+			case x.Op == token.NEQ && (isConst(x.X, "Binary") || isConst(x.Y, "Binary")):
+				notBinary = true
+				continue
+			case x.Op == token.EQL && (constName(info, x.X) == "reflect.Slice" || constName(info, x.Y) == "reflect.Slice"):
+				continue
+			}
+			return false
+		case *ast.CallExpr:
+			if FullName(Callee(info, x)) == P("util")+".IsValueSlice" {
+				continue
+			}
+			return false
+		default:
+			return false
+		}
+	}
+	return lenZero && notBinary
+}
+
+// nonEmptyAt: the facts at n exclude an empty leaf-list.
+func nonEmptyAt(c *Ctx, f *FuncInfo, n ast.Node) (bool, string) {
+	info := f.Info()
+	for _, ft := range c.FactsAt(f, n, true) {
+		if ft.Kind != "cond" {
+			continue
+		}
+		if !ft.Pos && emptyLeafListCond(info, ft.Cond) {
+			return true, "not (" + types.ExprString(ft.Cond) + ")"
+		}
+		if be, ok := ast.Unparen(ft.Cond).(*ast.BinaryExpr); ok && ft.Pos && (be.Op == token.NEQ || be.Op == token.GTR) {
+			if call, ok := ast.Unparen(be.X).(*ast.CallExpr); ok && FullName(Callee(info, call)) == "reflect.Value.Len" {
+				if v, ok := ConstOf(info, be.Y); ok && v == "0" {
+					return true, types.ExprString(ft.Cond)
+				}
+			}
+		}
+	}
+	return false, ""
+}
+
+// ruleEmptyLeafList: writer/reader agreement on leaf-lists without entries. ytypes' gNMI decoder
+// refuses a leaflist_val with no elements; as long as it does, no writer may emit one.
+func ruleEmptyLeafList(c *Ctx, r *Report) {
+	r.Rule("R-EMPTY-LEAFLIST", "while ytypes.unmarshalLeafList rejects a gNMI leaf-list value without elements, the notification writers (findUpdatedLeaves for TogNMINotifications, findSetLeaves for Diff) emit a slice-valued leaf only where an empty leaf-list is excluded (a zero-length Binary leaf is a value and must still be emitted)", 2)
+	dec := c.MustFunc(r, "ytypes", "unmarshalLeafList")
+	if dec == nil {
+		return
+	}
+	dinfo := dec.Info()
+	rejects := false
+	var at token.Pos
+	ast.Inspect(dec.Decl.Body, func(n ast.Node) bool {
+		is, ok := n.(*ast.IfStmt)
+		if !ok {
+			return true
+		}
+		be, ok := ast.Unparen(is.Cond).(*ast.BinaryExpr)
+		if !ok || be.Op != token.EQL {
+			return true
+		}
+		call, ok := ast.Unparen(be.X).(*ast.CallExpr)
+		if !ok {
+			return true
+		}
+		id, ok := call.Fun.(*ast.Ident)
+		if !ok || id.Name != "len" || len(call.Args) != 1 || !strings.Contains(types.ExprString(call.Args[0]), "GetElement") {
+			return true
+		}
+		if v, ok := ConstOf(dinfo, be.Y); !ok || v != "0" {
+			return true
+		}
+		for _, s := range is.Body.List {
+			if rs, ok := s.(*ast.ReturnStmt); ok && len(rs.Results) == 1 && !dinfo.Types[rs.Results[0]].IsNil() {
+				rejects, at = true, is.Pos()
+			}
+		}
+		return true
+	})
+	if !rejects {
+		r.OK("ytypes.unmarshalLeafList:empty-accepted", c.Pos(dec.Decl.Pos()), "the decoder has no arm rejecting an empty leaflist_val: writers may emit one")
+		r.OK("ygot.findUpdatedLeaves:leaf-list-emission", c.Pos(dec.Decl.Pos()), "not constrained (decoder accepts empty leaf-lists)")
+		r.OK("ygot.findSetLeaves:leaf-list-emission", c.Pos(dec.Decl.Pos()), "not constrained (decoder accepts empty leaf-lists)")
+		return
+	}
+	r.Note("ytypes.unmarshalLeafList:rejects-empty", c.Pos(at), "decoder returns an error for len(elements) == 0")
+	// writer 1: findUpdatedLeaves, Slice arm.
+	if f := c.MustFunc(r, "ygot", "findUpdatedLeaves"); f != nil {
+		info := f.Info()
+		n := 0
+		ast.Inspect(f.Decl.Body, func(x ast.Node) bool {
+			call, ok := x.(*ast.CallExpr)
+			if !ok {
+				return true
+			}
+			id, ok := call.Fun.(*ast.Ident)
+			if !ok || id.Name != "addLeaf" {
+				return true
+			}
+			inSlice := false
+			for _, ft := range c.FactsAt(f, call, false) {
+				if ft.Kind == "switch" {
+					for _, v := range ft.Vals {
+						if constName(info, v) == "reflect.Slice" {
+							inSlice = true
+						}
+					}
+				}
+			}
+			if !inSlice {
+				return true
+			}
+			n++
+			ok2, why := nonEmptyAt(c, f, call)
+			r.Check(ok2, fmt.Sprintf("ygot.findUpdatedLeaves:leaf-list-emission#%d", n), c.Pos(call.Pos()), "empty leaf-lists excluded: "+why,
+				"findUpdatedLeaves emits every non-nil slice, also a leaf-list with no entries ([]string{}): TogNMINotifications produces an update with an empty leaflist_val, which UnmarshalNotifications rejects (\"got empty leaf list\")")
+			return true
+		})
+		if n == 0 {
+			r.Und("ygot.findUpdatedLeaves:leaf-list-emission", c.Pos(f.Decl.Pos()), "no addLeaf call found in the reflect.Slice arm: the shape changed, re-confirm the rule")
+		}
+	}
+	// writer 2: findSetLeaves' recording store.
+	if f := c.MustFunc(r, "ygot", "findSetLeaves"); f != nil {
+		n := 0
+		ast.Inspect(f.Decl.Body, func(x ast.Node) bool {
+			as, ok := x.(*ast.AssignStmt)
+			if !ok || len(as.Lhs) != 1 {
+				return true
+			}
+			ix, ok := as.Lhs[0].(*ast.IndexExpr)
+			if !ok || types.ExprString(ix.X) != "outs" {
+				return true
+			}
+			n++
+			ok2, why := nonEmptyAt(c, f, as)
+			r.Check(ok2, fmt.Sprintf("ygot.findSetLeaves:leaf-list-emission#%d", n), c.Pos(as.Pos()), "empty leaf-lists excluded: "+why,
+				"findSetLeaves records every non-nil slice as a set leaf, also a leaf-list with no entries: Diff(a, b) contains an update with an empty leaflist_val that cannot be applied to a (SetNode rejects it), and an emptied leaf-list is never reported as deleted")
+			return true
+		})
+		if n == 0 {
+			r.Und("ygot.findSetLeaves:leaf-list-emission", c.Pos(f.Decl.Pos()), "recording store outs[...] not found: the shape changed, re-confirm the rule")
+		}
 	}
 }
